@@ -551,3 +551,430 @@ Proof.
   rewrite (@mse_shape_vec A a eqn xvar R (fun t => t) (fun t => fin t) [] H).
   cbn [map forallb length INR xsum fold_right]. unfold xdiv. rewrite sgn_zero, n0_R, sgn_zero. reflexivity.
 Qed.
+
+(* ------------------------------------------------------------------ Poisson *)
+Definition poisK (y : R) (p : xr) : xr := xsub p (xmul (fin y) (xlog p)).
+Definition zeroX : xr := fin (Q2R (0 # 1)).
+Definition xposb (p : xr) : bool := match xgt p zeroX with Some true => true | _ => false end.
+
+Lemma sequence_gt : forall (l : list xr),
+  forallb xisreal l = true ->
+  sequence (map (fun a => xgt a zeroX) l) = Some (map xposb l).
+Proof.
+  induction l as [|p l IH]; intros H; [reflexivity|].
+  simpl in H. apply andb_true_iff in H. destruct H as [Hp Hl].
+  cbn [map sequence]. rewrite (IH Hl).
+  destruct p; try discriminate; unfold xposb, zeroX; cbn [xgt]; try reflexivity.
+  destruct (nltb RNum (Q2R (0 # 1)) r); reflexivity.
+Qed.
+
+Lemma poisson_tail : forall (real pos : bool) (s : xr),
+  py_if (py_or (py_not (BS real)) (py_not (if real then BS pos else BErr))) (py_return (NS PInf))
+    (py_let (NS s) (fun nll => py_if (np_isnan nll) (py_return (NS PInf)) (py_return nll)))
+  = guarded (real && pos) s.
+Proof. intros [|] [|] s; try reflexivity; destruct s; reflexivity. Qed.
+
+Lemma poisson_shape_vec : forall (A : Type) (a : A) eqn xvar {X} (Y : X -> R) (P : X -> xr) (d : list X),
+  eqn xvar a = NA (map P d) ->
+  PoissonLikelihood_negloglike RNum A xvar (NA (map (fun t => fin (Y t)) d)) a eqn
+  = guarded (forallb xisreal (map P d) && forallb xposb (map P d)) (xsum (map (fun t => poisK (Y t) (P t)) d)).
+Proof.
+  intros A a eqn xvar X Y P d H.
+  unfold PoissonLikelihood_negloglike, Likelihood_get_pred, np_atleast_1d. rewrite H.
+  cbn [py_try py_let np_inf]. lifts.
+  cbn [np_sum np_isreal np_all np_gt]. rewrite forallb_id_map.
+  destruct (forallb xisreal (map P d)) eqn:Hr.
+  - change (fin (nofQ RNum (0 # 1))) with zeroX. rewrite (sequence_gt _ Hr). cbn [np_all]. rewrite forallb_id_map.
+    apply (poisson_tail true).
+  - destruct (sequence _); reflexivity.
+Qed.
+
+Lemma poisson_shape_scalar : forall (A : Type) (a : A) eqn xvar {X} (Y : X -> R) (p : xr) (d : list X),
+  eqn xvar a = NS p ->
+  PoissonLikelihood_negloglike RNum A xvar (NA (map (fun t => fin (Y t)) d)) a eqn
+  = guarded (xisreal p && xposb p) (xsum (map (fun t => poisK (Y t) p) d)).
+Proof.
+  intros A a eqn xvar X Y p d H.
+  unfold PoissonLikelihood_negloglike, Likelihood_get_pred, np_atleast_1d. rewrite H.
+  cbn [py_try py_let np_inf]. lifts.
+  cbn [np_sum np_isreal np_all np_gt].
+  change (fin (nofQ RNum (0 # 1))) with zeroX. unfold xposb.
+  destruct p as [f| | | |]; cbn [xgt xisreal zeroX]; try reflexivity.
+  unfold zeroX. cbn [xgt].
+  destruct (nltb RNum (Q2R (0 # 1)) f); [apply (poisson_tail true true)|apply (poisson_tail true false)].
+Qed.
+
+Lemma poisson_shape_exc : forall (A : Type) (a : A) eqn xvar {X} (Y : X -> R) (d : list X),
+  eqn xvar a = NErr ->
+  PoissonLikelihood_negloglike RNum A xvar (NA (map (fun t => fin (Y t)) d)) a eqn
+  = guarded true (xsum (map (fun t => poisK (Y t) PInf) d)).
+Proof.
+  intros A a eqn xvar X Y d H.
+  unfold PoissonLikelihood_negloglike, Likelihood_get_pred, np_atleast_1d. rewrite H.
+  cbn [py_try py_let np_inf]. lifts.
+  cbn [np_sum np_isreal np_all np_gt xgt].
+  apply (tail_guarded true).
+Qed.
+
+Definition posfin (p : xr) : Prop := match p with Fin f => 0 < f | _ => False end.
+
+Lemma xposb_fin : forall f : R, xposb (fin f) = true <-> 0 < f.
+Proof.
+  intros f. unfold xposb, zeroX. cbn [xgt nltb RNum]. rewrite zero_R. unfold Rltb.
+  destruct (Rlt_dec 0 f); split; intros; try assumption; try reflexivity; try discriminate; contradiction.
+Qed.
+
+Lemma poisK_fin : forall y f, 0 < f -> poisK y (fin f) = fin (poisson_term y f).
+Proof.
+  intros y f Hf. unfold poisK, xlog. rewrite (sgn_pos f Hf). reflexivity.
+Qed.
+
+(* +inf passes the `ypred > 0` test:  inf - y*ln(inf)  is NaN (y >= 0) or +inf (y < 0) *)
+Lemma poisK_pinf : forall y, badc (poisK y PInf).
+Proof.
+  intros y. unfold poisK. cbn [xlog xmul].
+  destruct (sgn_cases y) as [[_ E]|[[_ E]|[_ E]]]; rewrite E; cbn [inf_times xsub]; [left|right|right]; reflexivity.
+Qed.
+
+Lemma pos_real_cases : forall p : xr, xisreal p = true -> xposb p = true -> posfin p \/ p = PInf.
+Proof.
+  intros [f| | | |] Hr Hp; try discriminate.
+  - left. apply xposb_fin. exact Hp.
+  - right. reflexivity.
+Qed.
+
+Lemma poisK_okc : forall y p, xisreal p = true -> xposb p = true -> okc (poisK y p).
+Proof.
+  intros y p Hr Hp. destruct (pos_real_cases p Hr Hp) as [H|H].
+  - destruct p; try contradiction. rewrite poisK_fin by exact H. exact I.
+  - subst. destruct (poisK_pinf y) as [E|E]; rewrite E; exact I.
+Qed.
+
+Theorem poisson_formula : forall (A : Type) (a : A) (eqn : nv RNum -> A -> nv RNum) (xvar : nv RNum) (ys fs : list R),
+  length fs = length ys -> (forall f, In f fs -> 0 < f) ->
+  eqn xvar a = NA (map fin fs) ->
+  PoissonLikelihood_negloglike RNum A xvar (NA (map fin ys)) a eqn
+  = Ret (NS (fin (sum2 poisson_term ys fs))).
+Proof.
+  intros A a eqn xvar ys fs L1 Hf H.
+  destruct (rows2 ys fs L1) as [d [E1 E2]]. subst ys fs.
+  rewrite !map_map in *.
+  rewrite (@poisson_shape_vec A a eqn xvar (R * R)%type fst (fun t => fin (snd t)) d H).
+  rewrite forallb_isreal_fin. rewrite sum2_rows.
+  assert (Hp : forallb xposb (map (fun t : R * R => fin (snd t)) d) = true).
+  { apply forallb_forall. intros x Hx. apply in_map_iff in Hx. destruct Hx as [t [E Ht]]. subst x.
+    apply xposb_fin. apply Hf. apply in_map_iff. exists t. auto. }
+  rewrite Hp. cbn [andb].
+  apply guarded_sum_fin. intros t Ht. apply poisK_fin. apply Hf. apply in_map_iff. exists t. auto.
+Qed.
+
+Theorem poisson_formula_scalar : forall (A : Type) (a : A) (eqn : nv RNum -> A -> nv RNum) (xvar : nv RNum) (ys : list R) (c : R),
+  0 < c -> eqn xvar a = NS (fin c) ->
+  PoissonLikelihood_negloglike RNum A xvar (NA (map fin ys)) a eqn
+  = Ret (NS (fin (sum2 poisson_term ys (map (fun _ => c) ys)))).
+Proof.
+  intros A a eqn xvar ys c Hc H.
+  pose proof (sum2_rows poisson_term (fun t : R => t) (fun _ => c) ys) as E. rewrite map_id in E. rewrite E. clear E.
+  rewrite <- (map_id ys) at 1. rewrite !map_map.
+  rewrite (@poisson_shape_scalar A a eqn xvar R (fun t => t) (fin c) ys H).
+  assert (Hp : xposb (fin c) = true) by (apply xposb_fin; exact Hc). rewrite Hp. cbn [xisreal andb].
+  apply guarded_sum_fin. intros t Ht. apply poisK_fin. exact Hc.
+Qed.
+
+Theorem never_nan_poisson : forall (A : Type) (a : A) (eqn : nv RNum -> A -> nv RNum) (xvar : nv RNum) (ys : list R) (l : list xr),
+  length l = length ys ->
+  eqn xvar a = NA l -> Exists (fun p => ~ posfin p) l ->
+  PoissonLikelihood_negloglike RNum A xvar (NA (map fin ys)) a eqn = Ret (NS PInf).
+Proof.
+  intros A a eqn xvar ys l L1 H Hsp.
+  destruct (rows2 ys l L1) as [d [E1 E2]]. subst ys l.
+  rewrite !map_map in *.
+  rewrite (@poisson_shape_vec A a eqn xvar (R * xr)%type fst snd d H).
+  apply guarded_sum_bad.
+  - intros Hok t Ht. apply andb_true_iff in Hok. destruct Hok as [Hr Hp].
+    apply poisK_okc; [apply (forallb_map_In xisreal snd d Hr t Ht)|apply (forallb_map_In xposb snd d Hp t Ht)].
+  - intros Hok. apply andb_true_iff in Hok. destruct Hok as [Hr Hp].
+    apply Exists_map_elim in Hsp. destruct Hsp as [t [Ht Hq]]. exists t. split; [exact Ht|].
+    destruct (pos_real_cases (snd t) (forallb_map_In xisreal snd d Hr t Ht) (forallb_map_In xposb snd d Hp t Ht)) as [Hc|Hc].
+    + contradiction.
+    + rewrite Hc. apply poisK_pinf.
+Qed.
+
+Theorem never_nan_poisson_scalar : forall (A : Type) (a : A) (eqn : nv RNum -> A -> nv RNum) (xvar : nv RNum) (ys : list R) (p : xr),
+  ys <> [] -> eqn xvar a = NS p -> ~ posfin p ->
+  PoissonLikelihood_negloglike RNum A xvar (NA (map fin ys)) a eqn = Ret (NS PInf).
+Proof.
+  intros A a eqn xvar ys p Hne H Hsp.
+  rewrite <- (map_id ys). rewrite !map_map.
+  rewrite (@poisson_shape_scalar A a eqn xvar R (fun t => t) p ys H).
+  apply guarded_sum_bad.
+  - intros Hok t Ht. apply andb_true_iff in Hok. destruct Hok as [Hr Hp]. apply poisK_okc; assumption.
+  - intros Hok. apply andb_true_iff in Hok. destruct Hok as [Hr Hp].
+    destruct ys as [|t0 ys]; [contradiction Hne; reflexivity|]. exists t0. split; [left; reflexivity|].
+    destruct (pos_real_cases p Hr Hp) as [Hc|Hc]; [contradiction|]. rewrite Hc. apply poisK_pinf.
+Qed.
+
+Theorem poisson_exception : forall (A : Type) (a : A) (eqn : nv RNum -> A -> nv RNum) (xvar : nv RNum) (ys : list R),
+  ys <> [] -> eqn xvar a = NErr ->
+  PoissonLikelihood_negloglike RNum A xvar (NA (map fin ys)) a eqn = Ret (NS PInf).
+Proof.
+  intros A a eqn xvar ys Hne H.
+  rewrite <- (map_id ys). rewrite !map_map.
+  rewrite (@poisson_shape_exc A a eqn xvar R (fun t => t) ys H).
+  apply guarded_sum_bad.
+  - intros _ t Ht. destruct (poisK_pinf t) as [E|E]; rewrite E; exact I.
+  - intros _. destruct ys as [|t0 ys]; [contradiction Hne; reflexivity|]. exists t0. split; [left; reflexivity|].
+    apply poisK_pinf.
+Qed.
+
+(* ------------------------------------------------------------------ cosmic chronometers (and the mock class) *)
+Definition oneX : xr := fin (Q2R (1 # 1)).
+Definition ccK (y s : R) (p : xr) : xr :=
+  xmul (xmul half (xsq (xsub (xsqrt p) (fin y)))) (xdiv oneX (xsq (fin s))).
+
+Lemma isreal_sqrt : forall p : xr, xisreal (xsqrt p) = xisreal p.
+Proof. intros [f| | | |]; try reflexivity. unfold xsqrt. destruct (sgn f); reflexivity. Qed.
+Lemma forallb_isreal_sqrt : forall {X} (P : X -> xr) (d : list X),
+  forallb xisreal (map (fun t => xsqrt (P t)) d) = forallb xisreal (map P d).
+Proof. induction d as [|t d IH]; simpl; [reflexivity|]. rewrite IH, isreal_sqrt. reflexivity. Qed.
+
+Lemma cc_shape_vec : forall (A : Type) (a : A) eqn xvar {X} (Y S : X -> R) (P : X -> xr) (d : list X),
+  eqn xvar a = NA (map P d) ->
+  CCLikelihood_negloglike RNum A xvar (NA (map (fun t => fin (Y t)) d))
+    (CCLikelihood_inv_cov RNum (NA (map (fun t => fin (S t)) d))) a eqn
+  = guarded (forallb xisreal (map P d)) (xsum (map (fun t => ccK (Y t) (S t) (P t)) d)).
+Proof.
+  intros A a eqn xvar X Y S P d H.
+  unfold CCLikelihood_negloglike, CCLikelihood_get_pred, CCLikelihood_inv_cov, np_atleast_1d. rewrite H.
+  lifts. cbn [py_let]. lifts.
+  cbn [np_sum np_isreal np_all]. rewrite forallb_id_map, forallb_isreal_sqrt.
+  apply tail_guarded.
+Qed.
+
+Lemma cc_shape_scalar : forall (A : Type) (a : A) eqn xvar {X} (Y S : X -> R) (p : xr) (d : list X),
+  eqn xvar a = NS p ->
+  CCLikelihood_negloglike RNum A xvar (NA (map (fun t => fin (Y t)) d))
+    (CCLikelihood_inv_cov RNum (NA (map (fun t => fin (S t)) d))) a eqn
+  = guarded (xisreal p) (xsum (map (fun t => ccK (Y t) (S t) p) d)).
+Proof.
+  intros A a eqn xvar X Y S p d H.
+  unfold CCLikelihood_negloglike, CCLikelihood_get_pred, CCLikelihood_inv_cov, np_atleast_1d. rewrite H.
+  lifts. cbn [py_let]. lifts.
+  cbn [np_sum np_isreal np_all]. rewrite isreal_sqrt.
+  apply tail_guarded.
+Qed.
+
+(* CC/Mock override get_pred without the try/except: an exception in the model function
+   leaves negloglike as an exception (it is NOT turned into +inf) *)
+Theorem cc_exception_propagates : forall (A : Type) (a : A) (eqn : nv RNum -> A -> nv RNum) (xvar yvar inv_cov : nv RNum),
+  eqn xvar a = NErr ->
+  CCLikelihood_negloglike RNum A xvar yvar inv_cov a eqn = Raise.
+Proof.
+  intros A a eqn xvar yvar inv_cov H.
+  unfold CCLikelihood_negloglike, CCLikelihood_get_pred, np_atleast_1d. rewrite H. reflexivity.
+Qed.
+
+Definition nonnegfin (p : xr) : Prop := match p with Fin f => 0 <= f | _ => False end.
+
+Lemma invcov_fin : forall s : R, 0 < s -> xdiv oneX (xsq (fin s)) = fin (1 / (s * s)).
+Proof.
+  intros s Hs. unfold oneX, xsq. cbn [xmul nmul RNum]. unfold xdiv. rewrite (sgn_pos (s * s)) by nra.
+  cbn [ndiv RNum]. rewrite one_R. reflexivity.
+Qed.
+
+Lemma sqrt_fin : forall f : R, 0 <= f -> xsqrt (fin f) = fin (sqrt f).
+Proof.
+  intros f Hf. unfold xsqrt. destruct (sgn_cases f) as [[H _]|[[_ E]|[_ E]]]; [lra|rewrite E|rewrite E]; reflexivity.
+Qed.
+
+Lemma ccK_fin : forall y s f, 0 < s -> 0 <= f -> ccK y s (fin f) = fin (cc_term y s f).
+Proof.
+  intros y s f Hs Hf. unfold ccK. rewrite invcov_fin by exact Hs. rewrite sqrt_fin by exact Hf.
+  unfold half, xsq. cbn [xsub xmul nsub nmul RNum]. rewrite half_R. unfold cc_term. f_equal. field. lra.
+Qed.
+
+Lemma ccK_pinf : forall y s, 0 < s -> ccK y s PInf = PInf.
+Proof.
+  intros y s Hs. unfold ccK. rewrite invcov_fin by exact Hs. unfold half, xsq. cbn [xsqrt xsub xmul].
+  rewrite sgn_pos by (rewrite half_R; lra). cbn [inf_times xmul].
+  rewrite sgn_pos; [reflexivity|]. apply Rdiv_lt_0_compat; nra.
+Qed.
+
+Lemma ccK_nan : forall y s p, 0 < s -> xsqrt p = NaN -> ccK y s p = NaN.
+Proof.
+  intros y s p Hs E. unfold ccK. rewrite invcov_fin by exact Hs. rewrite E. reflexivity.
+Qed.
+
+Lemma cc_cases : forall p : xr, xisreal p = true -> nonnegfin p \/ p = PInf \/ xsqrt p = NaN.
+Proof.
+  intros [f| | | |] H; try discriminate.
+  - destruct (sgn_cases f) as [[Hf E]|[[Hf E]|[Hf E]]].
+    + right; right. unfold xsqrt. rewrite E. reflexivity.
+    + left. simpl. lra.
+    + left. simpl. lra.
+  - right; left; reflexivity.
+  - right; right; reflexivity.
+  - right; right; reflexivity.
+Qed.
+
+Lemma ccK_okc : forall y s p, 0 < s -> xisreal p = true -> okc (ccK y s p).
+Proof.
+  intros y s p Hs Hr. destruct (cc_cases p Hr) as [H|[H|H]].
+  - destruct p; try contradiction. rewrite ccK_fin by assumption. exact I.
+  - subst. rewrite ccK_pinf by exact Hs. exact I.
+  - rewrite ccK_nan by assumption. exact I.
+Qed.
+
+Lemma ccK_bad : forall y s p, 0 < s -> xisreal p = true -> ~ nonnegfin p -> badc (ccK y s p).
+Proof.
+  intros y s p Hs Hr Hn. destruct (cc_cases p Hr) as [H|[H|H]].
+  - contradiction.
+  - subst. rewrite ccK_pinf by exact Hs. left; reflexivity.
+  - rewrite ccK_nan by assumption. right; reflexivity.
+Qed.
+
+Theorem cc_formula : forall (A : Type) (a : A) (eqn : nv RNum -> A -> nv RNum) (xvar : nv RNum) (ys ss fs : list R),
+  length ss = length ys -> length fs = length ys -> (forall s, In s ss -> 0 < s) -> (forall f, In f fs -> 0 <= f) ->
+  eqn xvar a = NA (map fin fs) ->
+  CCLikelihood_negloglike RNum A xvar (NA (map fin ys)) (CCLikelihood_inv_cov RNum (NA (map fin ss))) a eqn
+  = Ret (NS (fin (sum3 cc_term ys ss fs))).
+Proof.
+  intros A a eqn xvar ys ss fs L1 L2 Hs Hf H.
+  destruct (rows3 ys ss fs L1 L2) as [d [E1 [E2 E3]]]. subst ys ss fs.
+  rewrite !map_map in *.
+  rewrite (@cc_shape_vec A a eqn xvar (R * R * R)%type (fun t => fst (fst t)) (fun t => snd (fst t)) (fun t => fin (snd t)) d H).
+  rewrite forallb_isreal_fin. rewrite sum3_rows.
+  apply guarded_sum_fin. intros t Ht. apply ccK_fin.
+  - apply Hs. apply in_map_iff. exists t. auto.
+  - apply Hf. apply in_map_iff. exists t. auto.
+Qed.
+
+Theorem cc_formula_scalar : forall (A : Type) (a : A) (eqn : nv RNum -> A -> nv RNum) (xvar : nv RNum) (ys ss : list R) (c : R),
+  length ss = length ys -> (forall s, In s ss -> 0 < s) -> 0 <= c ->
+  eqn xvar a = NS (fin c) ->
+  CCLikelihood_negloglike RNum A xvar (NA (map fin ys)) (CCLikelihood_inv_cov RNum (NA (map fin ss))) a eqn
+  = Ret (NS (fin (sum3 cc_term ys ss (map (fun _ => c) ys)))).
+Proof.
+  intros A a eqn xvar ys ss c L1 Hs Hc H.
+  destruct (rows2 ys ss L1) as [d [E1 E2]]. subst ys ss.
+  rewrite !map_map in *.
+  rewrite (@cc_shape_scalar A a eqn xvar (R * R)%type fst snd (fin c) d H).
+  rewrite (sum3_rows cc_term fst snd (fun _ => c) d).
+  apply guarded_sum_fin. intros t Ht. apply ccK_fin; [|exact Hc]. apply Hs. apply in_map_iff. exists t. auto.
+Qed.
+
+Theorem never_nan_cc : forall (A : Type) (a : A) (eqn : nv RNum -> A -> nv RNum) (xvar : nv RNum) (ys ss : list R) (l : list xr),
+  length ss = length ys -> length l = length ys -> (forall s, In s ss -> 0 < s) ->
+  eqn xvar a = NA l -> Exists (fun p => ~ nonnegfin p) l ->
+  CCLikelihood_negloglike RNum A xvar (NA (map fin ys)) (CCLikelihood_inv_cov RNum (NA (map fin ss))) a eqn = Ret (NS PInf).
+Proof.
+  intros A a eqn xvar ys ss l L1 L2 Hs H Hsp.
+  destruct (rows3 ys ss l L1 L2) as [d [E1 [E2 E3]]]. subst ys ss l.
+  rewrite !map_map in *.
+  rewrite (@cc_shape_vec A a eqn xvar (R * R * xr)%type (fun t => fst (fst t)) (fun t => snd (fst t)) snd d H).
+  apply guarded_sum_bad.
+  - intros Hr t Ht. apply ccK_okc.
+    + apply Hs. apply in_map_iff. exists t. auto.
+    + apply (forallb_map_In xisreal snd d Hr t Ht).
+  - intros Hr. apply Exists_map_elim in Hsp. destruct Hsp as [t [Ht Hq]]. exists t. split; [exact Ht|].
+    apply ccK_bad; [apply Hs; apply in_map_iff; exists t; auto| apply (forallb_map_In xisreal snd d Hr t Ht) | exact Hq].
+Qed.
+
+Theorem never_nan_cc_scalar : forall (A : Type) (a : A) (eqn : nv RNum -> A -> nv RNum) (xvar : nv RNum) (ys ss : list R) (p : xr),
+  length ss = length ys -> ys <> [] -> (forall s, In s ss -> 0 < s) ->
+  eqn xvar a = NS p -> ~ nonnegfin p ->
+  CCLikelihood_negloglike RNum A xvar (NA (map fin ys)) (CCLikelihood_inv_cov RNum (NA (map fin ss))) a eqn = Ret (NS PInf).
+Proof.
+  intros A a eqn xvar ys ss p L1 Hne Hs H Hsp.
+  destruct (rows2 ys ss L1) as [d [E1 E2]]. subst ys ss.
+  rewrite !map_map in *.
+  rewrite (@cc_shape_scalar A a eqn xvar (R * R)%type fst snd p d H).
+  destruct d as [|t0 d]; [exfalso; apply Hne; reflexivity|].
+  apply guarded_sum_bad.
+  - intros Hr t Ht. apply ccK_okc; [apply Hs; apply in_map_iff; exists t; auto|exact Hr].
+  - intros Hr. exists t0. split; [left; reflexivity|].
+    apply ccK_bad; [apply Hs; left; reflexivity|exact Hr|exact Hsp].
+Qed.
+
+(* the mock class is the same code *)
+Lemma mock_is_cc : MockLikelihood_negloglike = CCLikelihood_negloglike /\ MockLikelihood_inv_cov = CCLikelihood_inv_cov.
+Proof. split; reflexivity. Qed.
+
+Theorem mock_formula : forall (A : Type) (a : A) (eqn : nv RNum -> A -> nv RNum) (xvar : nv RNum) (ys ss fs : list R),
+  length ss = length ys -> length fs = length ys -> (forall s, In s ss -> 0 < s) -> (forall f, In f fs -> 0 <= f) ->
+  eqn xvar a = NA (map fin fs) ->
+  MockLikelihood_negloglike RNum A xvar (NA (map fin ys)) (MockLikelihood_inv_cov RNum (NA (map fin ss))) a eqn
+  = Ret (NS (fin (sum3 cc_term ys ss fs))).
+Proof. destruct mock_is_cc as [E1 E2]. rewrite E1, E2. exact cc_formula. Qed.
+
+Theorem mock_formula_scalar : forall (A : Type) (a : A) (eqn : nv RNum -> A -> nv RNum) (xvar : nv RNum) (ys ss : list R) (c : R),
+  length ss = length ys -> (forall s, In s ss -> 0 < s) -> 0 <= c ->
+  eqn xvar a = NS (fin c) ->
+  MockLikelihood_negloglike RNum A xvar (NA (map fin ys)) (MockLikelihood_inv_cov RNum (NA (map fin ss))) a eqn
+  = Ret (NS (fin (sum3 cc_term ys ss (map (fun _ => c) ys)))).
+Proof. destruct mock_is_cc as [E1 E2]. rewrite E1, E2. exact cc_formula_scalar. Qed.
+
+Theorem never_nan_mock : forall (A : Type) (a : A) (eqn : nv RNum -> A -> nv RNum) (xvar : nv RNum) (ys ss : list R) (l : list xr),
+  length ss = length ys -> length l = length ys -> (forall s, In s ss -> 0 < s) ->
+  eqn xvar a = NA l -> Exists (fun p => ~ nonnegfin p) l ->
+  MockLikelihood_negloglike RNum A xvar (NA (map fin ys)) (MockLikelihood_inv_cov RNum (NA (map fin ss))) a eqn = Ret (NS PInf).
+Proof. destruct mock_is_cc as [E1 E2]. rewrite E1, E2. exact never_nan_cc. Qed.
+
+Theorem never_nan_mock_scalar : forall (A : Type) (a : A) (eqn : nv RNum -> A -> nv RNum) (xvar : nv RNum) (ys ss : list R) (p : xr),
+  length ss = length ys -> ys <> [] -> (forall s, In s ss -> 0 < s) ->
+  eqn xvar a = NS p -> ~ nonnegfin p ->
+  MockLikelihood_negloglike RNum A xvar (NA (map fin ys)) (MockLikelihood_inv_cov RNum (NA (map fin ss))) a eqn = Ret (NS PInf).
+Proof. destruct mock_is_cc as [E1 E2]. rewrite E1, E2. exact never_nan_cc_scalar. Qed.
+
+Theorem mock_exception_propagates : forall (A : Type) (a : A) (eqn : nv RNum -> A -> nv RNum) (xvar yvar inv_cov : nv RNum),
+  eqn xvar a = NErr ->
+  MockLikelihood_negloglike RNum A xvar yvar inv_cov a eqn = Raise.
+Proof. destruct mock_is_cc as [E1 E2]. rewrite E1. exact cc_exception_propagates. Qed.
+
+(* ------------------------------------------------------------------ no NaN, for every input whatsoever and every number structure *)
+(* the call either raises or returns a scalar that is not NaN *)
+Definition not_nan_result {N} (r : res N) : Prop :=
+  match r with
+  | Raise => True
+  | Ret (NS NaN) => False
+  | Ret (NS _) => True
+  | Ret _ => False
+  end.
+Definition scalar_or_err {N} (v : nv N) : Prop := match v with NA _ => False | _ => True end.
+
+Section NoNaN.
+Variable N : Num.
+Variable A : Type.
+
+Lemma nn_if : forall c (r : res N), not_nan_result r -> not_nan_result (py_if c (py_return np_inf) r).
+Proof. intros c r H. unfold py_if. destruct (truth c) as [[|]|]; simpl; auto. Qed.
+Lemma nn_let : forall (v : nv N) k, (forall w, not_nan_result (k w)) -> not_nan_result (py_let v k).
+Proof. intros v k H. destruct v; simpl; auto. Qed.
+Lemma nn_tail : forall w : nv N, scalar_or_err w ->
+  not_nan_result (py_let w (fun nll => py_if (np_isnan nll) (py_return np_inf) (py_return nll))).
+Proof. intros [x|l|] H; simpl in *; auto; [destruct x; simpl; auto|contradiction]. Qed.
+Lemma sum_scalar : forall v : nv N, scalar_or_err (np_sum v).
+Proof. intros [x|l|]; exact I. Qed.
+Lemma mean_scalar : forall v : nv N, scalar_or_err (np_mean v).
+Proof. intros [x|l|]; exact I. Qed.
+
+Theorem gauss_no_nan : forall xvar yvar yerr (a : A) eqn, not_nan_result (GaussLikelihood_negloglike N A xvar yvar yerr a eqn).
+Proof. intros. unfold GaussLikelihood_negloglike. apply nn_let; intro. apply nn_if. apply nn_tail. apply sum_scalar. Qed.
+Theorem poisson_no_nan : forall xvar yvar (a : A) eqn, not_nan_result (PoissonLikelihood_negloglike N A xvar yvar a eqn).
+Proof. intros. unfold PoissonLikelihood_negloglike. apply nn_let; intro. apply nn_if. apply nn_tail. apply sum_scalar. Qed.
+Theorem cc_no_nan : forall xvar yvar ic (a : A) eqn, not_nan_result (CCLikelihood_negloglike N A xvar yvar ic a eqn).
+Proof. intros. unfold CCLikelihood_negloglike. apply nn_let; intro. apply nn_if. apply nn_tail. apply sum_scalar. Qed.
+Theorem mock_no_nan : forall xvar yvar ic (a : A) eqn, not_nan_result (MockLikelihood_negloglike N A xvar yvar ic a eqn).
+Proof. intros. unfold MockLikelihood_negloglike. apply nn_let; intro. apply nn_if. apply nn_tail. apply sum_scalar. Qed.
+Theorem mse_no_nan : forall xvar yvar (a : A) eqn, not_nan_result (MSE_negloglike N A xvar yvar a eqn).
+Proof. intros. unfold MSE_negloglike. apply nn_let; intro. apply nn_if. apply nn_tail. apply mean_scalar. Qed.
+End NoNaN.
+
+(* the model's addition is associative and commutative on the extended reals, so the order in which
+   np.sum adds (pairwise in numpy, right fold in [xsum]) does not matter in the model *)
+Lemma xadd_comm : forall a b : xr, xadd a b = xadd b a.
+Proof. intros [x| | | |] [y| | | |]; simpl; try reflexivity. f_equal. apply Rplus_comm. Qed.
+Lemma xadd_assoc : forall a b c : xr, xadd a (xadd b c) = xadd (xadd a b) c.
+Proof.
+  intros [x| | | |] [y| | | |] [z| | | |]; simpl; try reflexivity. f_equal. symmetry. apply Rplus_assoc.
+Qed.
